@@ -769,6 +769,10 @@ impl Ctx {
 
     fn watchdog(&self, slots: &[Arc<WatchSlot>], done: &AtomicUsize, threads: usize) {
         let limit = Duration::from_secs(std::env::var("VERIF_HANG_S").ok().and_then(|s| s.parse().ok()).unwrap_or(20));
+        // an evaluation that a fresh process finishes at once was slow because the MACHINE was busy: the clock of that
+        // slot is restarted and the run goes on; only when the same evaluation trips the watchdog four times is the run
+        // given up as inconclusive
+        let mut false_trips: BTreeMap<String, u32> = BTreeMap::new();
         loop {
             if done.load(Ordering::SeqCst) >= threads {
                 return;
@@ -779,6 +783,19 @@ impl Ctx {
                 if let Some((t, what)) = cur {
                     if t.elapsed() > limit {
                         self.report_hang(&what);
+                        let n = false_trips.entry(what.clone()).or_insert(0);
+                        *n += 1;
+                        if *n >= 4 {
+                            eprintln!("[{}] the same evaluation tripped the watchdog four times although a fresh process finishes it: inconclusive", self.prop);
+                            self.write_evidence(2);
+                            std::process::exit(2);
+                        }
+                        let mut g = s.current.lock().unwrap();
+                        if let Some((start, w)) = g.as_mut() {
+                            if *w == what {
+                                *start = Instant::now();
+                            }
+                        }
                     }
                 }
             }
@@ -786,7 +803,7 @@ impl Ctx {
     }
 
     /// One evaluation exceeded the watchdog limit. Confirm in a child process, then exit.
-    fn report_hang(&self, what: &str) -> ! {
+    fn report_hang(&self, what: &str) {
         let dir = format!("{}/replays", verif_dir());
         let _ = std::fs::create_dir_all(&dir);
         let path = format!("{}/{}-{}-hang.json", dir, self.prop, self.seed);
@@ -799,9 +816,9 @@ impl Ctx {
         loop {
             match child.try_wait() {
                 Ok(Some(_)) => {
-                    eprintln!("[{}] the child finished the same input in {:.1}s: machine stalled, run is inconclusive", self.prop, t0.elapsed().as_secs_f64());
-                    self.write_evidence(2);
-                    std::process::exit(2);
+                    eprintln!("[{}] the child finished the same input in {:.1}s: the machine is busy, not the library stuck; going on", self.prop, t0.elapsed().as_secs_f64());
+                    let _ = std::fs::remove_file(&path);
+                    return;
                 }
                 Ok(None) => {
                     if t0.elapsed() > Duration::from_secs(120) {
